@@ -411,6 +411,10 @@ def stepLine (_ : Unit) (ws : List String) : Unit × String :=
     match cfgOf (natOf client) with
     | none => bad i
     | some cfg => ((), i ++ (if runSeq cfg 3 == "ok 3" then " ok" else " bad"))
+  | ["drops", i, client] =>
+    match cfgOf (natOf client) with
+    | none => bad i
+    | some cfg => ((), i ++ (if runSeq cfg 1 == "ok 1" then " ok" else " bad"))
   | ["life", i, client, _seed] =>
     -- one client through timeouts, error responses, failed serialisations, notifies, a batch, a cancel:
     -- in the model each of these leaves the state in which the next call is served (`others_still_served`)
